@@ -242,6 +242,47 @@ func TestVerifArgConv(t *testing.T) {
 			emit(k.name, "val", fmt.Sprintf("when-variadic-%d-elements", nargs), outcome)
 		}
 	}
+	// SEQUENCES of interface-typed results: distinct concrete values given to Returns / Return+AndReturn must come back one after the
+	// other, each as itself (every configured value keeps a box of its own), also when a condition's sequence is interleaved
+	e1, e2, e3 := errors.New("e1"), errors.New("e2"), &cvErr{"e3"}
+	for _, form := range []string{"returns", "return-andreturn", "default-and-condition"} {
+		b := mocker.Create()
+		outcome := "boxed"
+		p := catch(func() {
+			var want []error
+			switch form {
+			case "returns":
+				b.Func(conv.RErr).Returns(e1, e2, e3)
+				want = []error{e1, e2, e3, e3}
+			case "return-andreturn":
+				b.Func(conv.RErr).Return(e1).AndReturn(e2).AndReturn(e3)
+				want = []error{e1, e2, e3, e3}
+			default:
+				b.Func(conv.RErr).Returns(e1, e2)
+				b2 := mocker.Create()
+				defer b2.Reset()
+				b2.Func(conv.RAny).Returns(conv.S{1, "a"}, conv.S{2, "b"})
+				if x := conv.RAny(); x != (conv.S{1, "a"}) {
+					outcome = fmt.Sprintf("wrong-first-any(%v)", x)
+				}
+				want = []error{e1, e2, e2}
+			}
+			for i, w := range want {
+				if got := conv.RErr(); got != w {
+					outcome = fmt.Sprintf("wrong-call-%d-got-%v-want-%v", i+1, got, w)
+					break
+				}
+			}
+		})
+		if p != "" {
+			outcome = "panic:" + p
+			if len(outcome) > 90 {
+				outcome = outcome[:90]
+			}
+		}
+		catch(func() { b.Reset() })
+		emit("error", "concrete", "sequence-"+form, outcome)
+	}
 	// conditions on an INTERFACE method whose configuration was started in another style: the values given to When are compared as
 	// the method's declared parameter types (the *IContext of the As() signature is not a parameter) whichever instruction came first
 	for _, first := range []string{"return", "returns", "when"} {
